@@ -16,7 +16,7 @@ from .terms import T, alts, walk, attr_chain
 LI = {"lengths", "n_rows", "view", "view_rows", "col_slice", "get_flat_indices", "_get_flat_indices", "get_shape",
       "_dtype", "__class__", "empty_rows_removed", "empty_removed", "col_step", "_step"}
 NEUTRAL_CALLS = {"isinstance", "hasattr", "type", "repr", "str", "id", "print", "issubclass"}
-BASE_MATERIALISERS = {"raggedarray.base.RaggedBase._flatten_myself"}
+BASE_MATERIALISERS = set()    # historical: materialisers are inferred from structure, see TypeState.materialisers
 
 
 def path_of(e):
@@ -104,6 +104,21 @@ def _eo(e, cond):
     yield (e, cond)
 
 
+def _class_names(t, module, depth=0):
+    """class names mentioned by the second argument of isinstance(); a module-level constant naming a tuple of classes
+    (`_LAZY_VIEWS = (RaggedView, RaggedView2)`) is expanded"""
+    out = set()
+    for x in walk(t):
+        if x.k == "global":
+            v = module.assigns.get(x.a[0]) if module is not None else None
+            if v is not None and isinstance(v, (ast.Tuple, ast.List)) and depth < 3 and all(isinstance(e, (ast.Name, ast.Attribute)) for e in v.elts):
+                for e in v.elts:
+                    out.add(e.id if isinstance(e, ast.Name) else e.attr)
+            else:
+                out.add(x.a[0])
+    return out
+
+
 class TypeState:
     def __init__(self, tk):
         self.tk = tk
@@ -113,85 +128,131 @@ class TypeState:
         self._res = {}
         self._retmat = {}
         self._retstack = set()
+        self._cur_module = None
 
     # -- which methods leave their receiver materialised on every path ----------
     def materialisers(self):
+        """methods of the RaggedBase hierarchy after which `self` is materialised on every normal exit.
+        Structure based (no method names): a *materialising point* is a statement that stores `self.is_contigous = True`
+        (the function must also store the buffer and the geometry) or a call `self.m()` of a method already known to
+        materialise.  A path may bypass the materialising points only through a *licence*: a branch taken because
+        `self.is_contigous` is true, or because the geometry is not a lazy view class (such arrays are materialised by
+        construction)."""
         if self._mat_methods is not None:
             return self._mat_methods
         p = self.ctx.program
         mats = set()
-        for q in BASE_MATERIALISERS:
-            f = p.funcs.get(q)
-            if f is not None and self._sets_contiguous(f):
-                mats.add(q)
+        cands = []
+        for q, f in p.funcs.items():
+            if f.cls is None or not f.params or f.is_staticmethod or f.is_classmethod or f.parent:
+                continue
+            if not any(c.qual == "raggedarray.base.RaggedBase" for c in f.cls.mro()):
+                continue
+            if f.name in ("__init__", "__new__"):
+                continue
+            cands.append((q, f))
         changed = True
         while changed:
             changed = False
-            for q, f in p.funcs.items():
-                if q in mats or f.cls is None or not f.params or f.is_staticmethod or f.is_classmethod or f.parent:
+            for q, f in cands:
+                if q in mats:
                     continue
-                if not any(c.qual == "raggedarray.base.RaggedBase" for c in f.cls.mro()):
-                    continue
-                fa = self.ctx.fa(f)
-                through = []
-                for n in fa.cfg.nodes:
-                    if n.kind != "stmt" or not fa.cfg.is_reachable(n) or n.ast is None:
-                        continue
-                    for sub, cond in eval_order(_stmt_value(n.ast)) if _stmt_value(n.ast) is not None else ():
-                        if cond or not isinstance(sub, ast.Call) or not isinstance(sub.func, ast.Attribute):
-                            continue
-                        if isinstance(sub.func.value, ast.Name) and sub.func.value.id == f.params[0]:
-                            tg = f.cls.lookup(sub.func.attr)
-                            if tg is not None and tg.qual in mats:
-                                through.append(n)
-                                break
-                # ravel(): materialises unless the flag says it already is -> accepted through its guard
-                if q == "raggedarray.base.RaggedBase.ravel":
-                    ok = self._ravel_shape(fa, mats)
-                else:
-                    ok = bool(through) and fa.cfg.must_pass(through, fa.cfg.exit)
-                if ok:
+                if self._leaves_materialised(f, mats):
                     mats.add(q)
                     changed = True
         self._mat_methods = mats
         return mats
 
-    def _sets_contiguous(self, f):
-        """_flatten_myself: every path that does not return early under `not isinstance(shape, views)` stores
-        __data, _shape and is_contigous = True"""
+    def core_materialisers(self):
+        """the functions that themselves replace buffer, geometry and flag (today: RaggedBase._flatten_myself)"""
+        out = []
+        for q in sorted(self.materialisers()):
+            f = self.ctx.program.funcs[q]
+            if self._own_points(f):
+                out.append(f)
+        return out
+
+    def _self_stores(self, f):
         fa = self.ctx.fa(f)
         stores = {}
         for n in fa.cfg.stmts():
-            if n.kind == "stmt" and isinstance(n.ast, ast.Assign):
+            if n.kind == "stmt" and isinstance(n.ast, ast.Assign) and fa.cfg.is_reachable(n):
+                tgs = []
                 for tg in n.ast.targets:
+                    tgs += list(tg.elts) if isinstance(tg, (ast.Tuple, ast.List)) else [tg]
+                for tg in tgs:
                     if isinstance(tg, ast.Attribute) and isinstance(tg.value, ast.Name) and tg.value.id == f.params[0]:
                         stores.setdefault(tg.attr, []).append(n)
-        return all(k in stores for k in ("__data", "_shape", "is_contigous"))
+        return stores
 
-    def _ravel_shape(self, fa, mats):
-        """ravel: `if not self.is_contigous: self._flatten_myself()` - the materialiser call is skipped only
-        under the fact is_contigous (== already materialised)"""
-        f = fa.func
-        calls = []
-        for n in fa.cfg.stmts():
-            if n.kind == "stmt" and isinstance(n.ast, ast.Expr) and isinstance(n.ast.value, ast.Call):
-                c = n.ast.value
-                if isinstance(c.func, ast.Attribute) and isinstance(c.func.value, ast.Name) and c.func.value.id == f.params[0]:
-                    tg = f.cls.lookup(c.func.attr)
+    def _own_points(self, f):
+        """statements of f that set is_contigous = True, provided f also stores the buffer and the geometry"""
+        stores = self._self_stores(f)
+        if not all(k in stores for k in ("__data", "_shape", "is_contigous")):
+            return []
+        return [n for n in stores["is_contigous"] if isinstance(n.ast.value, ast.Constant) and n.ast.value.value is True]
+
+    def _licence(self, t, selfn):
+        """'T' / 'F': the truth value of condition t under which self is certainly materialised already; None otherwise"""
+        if t.k == "un" and t.a[0] == "not":
+            r = self._licence(t.a[1], selfn)
+            return {"T": "F", "F": "T"}.get(r)
+        if attr_chain(t) == (selfn, "is_contigous"):
+            return "T"
+        if t.k == "call" and t.a[0].k == "global" and t.a[0].a[0] == "isinstance" and len(t.a[1]) == 2:
+            subj = t.a[1][0]
+            names = _class_names(t.a[1][1], self._cur_module)
+            if any(attr_chain(a) == (selfn, "_shape") for a in alts(subj)) and names and names <= {"RaggedView", "RaggedView2"}:
+                return "F"
+            return None
+        if t.k == "bool":
+            rs = [self._licence(x, selfn) for x in t.a[1]]
+            if t.a[0] == "or" and all(r == "T" for r in rs):
+                return "T"
+            if t.a[0] == "and" and all(r == "F" for r in rs):
+                return "F"
+        return None
+
+    def _leaves_materialised(self, f, mats):
+        fa = self.ctx.fa(f)
+        selfn = f.params[0]
+        self._cur_module = f.module
+        points = set(n.id for n in self._own_points(f))
+        for n in fa.cfg.nodes:
+            if n.kind != "stmt" or not fa.cfg.is_reachable(n) or n.ast is None:
+                continue
+            v = _stmt_value(n.ast)
+            if v is None:
+                continue
+            for sub, cond in eval_order(v):
+                if cond or not isinstance(sub, ast.Call) or not isinstance(sub.func, ast.Attribute):
+                    continue
+                if isinstance(sub.func.value, ast.Name) and sub.func.value.id == selfn:
+                    tg = f.cls.lookup(sub.func.attr)
                     if tg is not None and tg.qual in mats:
-                        calls.append(n)
-        if not calls:
+                        points.add(n.id)
+                        break
+        if not points:
             return False
-        if fa.cfg.must_pass(calls, fa.cfg.exit):
-            return True
-        # every bypass must be dominated by "self.is_contigous is true"
-        from .guards import facts_at as _facts
-        for n in calls:
-            for t, truth, test in _facts(fa, n):
-                c = attr_chain(t)
-                if c == (f.params[0], "is_contigous") and not truth:
-                    return True
-        return False
+        # is the normal exit reachable from the entry without a materialising point and without a licence?
+        seen = set()
+        stack = [fa.cfg.entry]
+        while stack:
+            n = stack.pop()
+            if n.id in seen or n.id in points:
+                continue
+            seen.add(n.id)
+            if n is fa.cfg.exit:
+                return False
+            if n.kind == "test":
+                lic = self._licence(fa.term(n.ast, n), selfn)
+                for e in n.succ:
+                    if e.kind == "edge" and lic is not None and e.info[1] == (lic == "T"):
+                        continue            # licensed edge: already materialised
+                    stack.append(e)
+                continue
+            stack.extend(n.succ)
+        return True
 
     def is_materialiser_call(self, call, fa):
         """call node `P.m(...)` where m leaves P materialised"""
